@@ -6,7 +6,7 @@ import writer_tab as wt
 
 CONFIGS_QUICK = ["F_all", "F_def"]  # every configuration whose cfg-gated code the property depends on
 CONFIGS_THOROUGH = ["F_all", "F_def"]
-TECHNIQUE = 'static analysis: writer flag/indent table extraction (sync+async), output sequences of write_wrapped*, who-writes-newline, depth bookkeeping must-call rules, value sets of WriteResult predicates, effect-vs-classification rule for WriteResult on text-writing paths'
+TECHNIQUE = 'static analysis: writer flag/indent table extraction (sync+async), output sequences of write_wrapped*, who-writes-newline, depth bookkeeping must-call rules, value sets of WriteResult predicates, effect-vs-classification rule for WriteResult on text-writing paths, flag-guard rule for every call of se::Indent::write_indent'
 EXPLANATION = (
     "Writer flag table (sync and async): should_line_break is set false exactly after Text and CData and true after every "
     "other event; the only code writing `\\n` + current indent is write_wrapped*/write_indent*, in the former only under "
